@@ -8,8 +8,8 @@ import (
 	"time"
 
 	sdk "github.com/cosmos/cosmos-sdk/types"
-	"verif/mc/report"
-	"verif/mc/world"
+	"github.com/palomachain/paloma/v2/zzverif/report"
+	"github.com/palomachain/paloma/v2/zzverif/world"
 )
 
 // Ghost is the reference-model half of a state.
